@@ -590,7 +590,32 @@ func (c *genCtx) trap(depth int, nn bool) *Expr {
 	if c.o.Parseables && c.draw(0, 11, "refusetrap") == 0 {
 		kind = 14
 	}
+	if !c.o.NoLookNeg && c.draw(0, 11, "swallowtrap") == 0 {
+		kind = 15
+	}
 	switch kind {
+	case 15:
+		// a lookahead group or a negation whose body holds a group that fails several tokens in (the failure is
+		// swallowed and the parse goes on), then choice points nested three deep, the innermost of which captures a
+		// token and is abandoned:  (?! ( Ident "(" ";" )+ )  ( @Ident ( "(" @Ident ( @"-" ";" )? )? ( "-" @Int )? ")"? )+
+		deep := Group(rapid.SampledFrom([]string{"+", "?", "*"}).Draw(c.t, "swallowmod"), Seq(Ref("Ident"), Lit("("), Lit(";")))
+		var pre *Expr
+		switch c.draw(0, 2, "swallowkind") {
+		case 0:
+			pre = Look(true, deep)
+			if deep.Mod == "+" {
+				pre = Look(false, deep)
+			}
+		case 1:
+			pre = Look(false, Seq(deep, Lit("+")))
+		default:
+			pre = Cap(Not(Seq(deep, Lit("+"))))
+		}
+		item := Seq(Cap(Ref("Ident")),
+			Group("?", Seq(Lit("("), Cap(Ref("Ident")), Group("?", Seq(Cap(Lit("-")), Lit(";"))))),
+			Group("?", Seq(Lit("-"), Cap(Ref("Int")))),
+			Group("?", Lit(")")))
+		return Seq(pre, Group("+", item))
 	case 14:
 		// a user-implemented production that refuses some tokens, tried again and again next to an alternative that
 		// takes what it refuses: ( @R | @Ident )+ -- what an attempt that refused did to its value is gone with it
